@@ -1295,6 +1295,9 @@ func HandleCopy(deps ServerDeps, conn net.Conn, tag string, parts []string, stat
 // ErrAlreadyInMailbox is returned by MoveMessageToMailbox when source and destination are the same mailbox
 var ErrAlreadyInMailbox = errors.New("message is already in the destination mailbox")
 
+// ErrMessageGone is returned by MoveMessageToMailbox when the message has left the source mailbox meanwhile
+var ErrMessageGone = errors.New("message is no longer in the source mailbox")
+
 // MoveMessageToMailbox moves a message from the current mailbox to a destination mailbox
 // Returns the new sequence number in the destination mailbox, or 0 if failed
 func MoveMessageToMailbox(userDB *sql.DB, messageID int64, sourceMailboxID int64, sourceUID int64, destMailboxName string, userID int64, flags string, internalDate string) error {
@@ -1345,13 +1348,19 @@ func MoveMessageToMailbox(userDB *sql.DB, messageID int64, sourceMailboxID int64
 	}
 
 	// Delete this one link from the source mailbox (another copy of the same message may live there too)
-	_, err = tx.Exec(`
+	res, err := tx.Exec(`
 		DELETE FROM message_mailbox
 		WHERE mailbox_id = ? AND uid = ?
 	`, sourceMailboxID, sourceUID)
 
 	if err != nil {
 		return fmt.Errorf("failed to delete from source: %w", err)
+	}
+
+	// Another session may have moved or expunged the message since the caller looked it up: then there was
+	// nothing to move, and the link inserted above must not stay (the transaction is rolled back)
+	if n, err := res.RowsAffected(); err == nil && n == 0 {
+		return ErrMessageGone
 	}
 
 	// Record the UID handed out so that the next message added to the destination continues after it
